@@ -113,6 +113,21 @@ fn check_allowed_values(value: Value, av_evaluator: Option<&Evaluator>) -> Value
   }
 }
 
+/// Checks the items of a collection, because the allowed values
+/// of a collection are the values that are allowed for its items.
+fn check_allowed_items(values: Values, av_evaluator: Option<&Evaluator>) -> Value {
+  if let Some(evaluator) = av_evaluator {
+    for item_value in values.as_vec() {
+      let scope = Scope::default();
+      scope.set_entry(&"?".into(), item_value.clone());
+      if !evaluator(&scope).is_true() {
+        return value_null!("value not allowed");
+      }
+    }
+  }
+  Value::List(values)
+}
+
 ///
 fn build_simple_type_evaluator(feel_type: FeelType, av_evaluator: Option<Evaluator>) -> Result<ItemDefinitionEvaluatorFn> {
   ///
@@ -264,7 +279,7 @@ fn build_collection_of_simple_type_evaluator(feel_type: FeelType, av_evaluator: 
             return value_null!("item definition evaluator (CollectionOfSimpleType): expected string");
           }
         }
-        check_allowed_values(Value::List(evaluated_values), av_evaluator.as_ref())
+        check_allowed_items(evaluated_values, av_evaluator.as_ref())
       } else {
         value_null!("item definition evaluator (CollectionOfSimpleType): expected list")
       }
@@ -282,7 +297,7 @@ fn build_collection_of_simple_type_evaluator(feel_type: FeelType, av_evaluator: 
             return value_null!("item definition evaluator (CollectionOfSimpleType): expected number");
           }
         }
-        check_allowed_values(Value::List(evaluated_values), av_evaluator.as_ref())
+        check_allowed_items(evaluated_values, av_evaluator.as_ref())
       } else {
         value_null!("item definition evaluator (CollectionOfSimpleType): expected list")
       }
@@ -300,7 +315,7 @@ fn build_collection_of_simple_type_evaluator(feel_type: FeelType, av_evaluator: 
             return value_null!("item definition evaluator (CollectionOfSimpleType): expected boolean");
           }
         }
-        check_allowed_values(Value::List(evaluated_values), av_evaluator.as_ref())
+        check_allowed_items(evaluated_values, av_evaluator.as_ref())
       } else {
         value_null!("item definition evaluator (CollectionOfSimpleType): expected list")
       }
@@ -318,7 +333,7 @@ fn build_collection_of_simple_type_evaluator(feel_type: FeelType, av_evaluator: 
             return value_null!("item definition evaluator (CollectionOfSimpleType): expected date");
           }
         }
-        check_allowed_values(Value::List(evaluated_values), av_evaluator.as_ref())
+        check_allowed_items(evaluated_values, av_evaluator.as_ref())
       } else {
         value_null!("item definition evaluator (CollectionOfSimpleType): expected list")
       }
@@ -336,7 +351,7 @@ fn build_collection_of_simple_type_evaluator(feel_type: FeelType, av_evaluator: 
             return value_null!("item definition evaluator (CollectionOfSimpleType): expected time");
           }
         }
-        check_allowed_values(Value::List(evaluated_values), av_evaluator.as_ref())
+        check_allowed_items(evaluated_values, av_evaluator.as_ref())
       } else {
         value_null!("item definition evaluator (CollectionOfSimpleType): expected list")
       }
@@ -354,7 +369,7 @@ fn build_collection_of_simple_type_evaluator(feel_type: FeelType, av_evaluator: 
             return value_null!("item definition evaluator (CollectionOfSimpleType): expected date and time");
           }
         }
-        check_allowed_values(Value::List(evaluated_values), av_evaluator.as_ref())
+        check_allowed_items(evaluated_values, av_evaluator.as_ref())
       } else {
         value_null!("item definition evaluator (CollectionOfSimpleType): expected list")
       }
@@ -372,7 +387,7 @@ fn build_collection_of_simple_type_evaluator(feel_type: FeelType, av_evaluator: 
             return value_null!("item definition evaluator (CollectionOfSimpleType): expected days and time duration");
           }
         }
-        check_allowed_values(Value::List(evaluated_values), av_evaluator.as_ref())
+        check_allowed_items(evaluated_values, av_evaluator.as_ref())
       } else {
         value_null!("item definition evaluator (CollectionOfSimpleType): expected list")
       }
@@ -390,7 +405,7 @@ fn build_collection_of_simple_type_evaluator(feel_type: FeelType, av_evaluator: 
             return value_null!("item definition evaluator (CollectionOfSimpleType): expected months and years duration");
           }
         }
-        check_allowed_values(Value::List(evaluated_values), av_evaluator.as_ref())
+        check_allowed_items(evaluated_values, av_evaluator.as_ref())
       } else {
         value_null!("item definition evaluator (CollectionOfSimpleType): expected list")
       }
@@ -419,7 +434,7 @@ fn build_collection_of_referenced_type_evaluator(type_ref: String, av_evaluator:
         for item_value in values.as_vec() {
           evaluated_values.add(evaluator(item_value, evaluators));
         }
-        check_allowed_values(Value::List(evaluated_values), av_evaluator.as_ref())
+        check_allowed_items(evaluated_values, av_evaluator.as_ref())
       } else {
         value_null!("no evaluator defined for type reference '{}'", type_ref)
       }
@@ -457,7 +472,7 @@ fn build_collection_of_component_type_evaluator(item_definition: &ItemDefinition
           return value_null!("expected context, actual type is '{}' in value '{}'", item_value.type_of(), item_value);
         }
       }
-      check_allowed_values(Value::List(evaluated_values), av_evaluator.as_ref())
+      check_allowed_items(evaluated_values, av_evaluator.as_ref())
     } else {
       value_null!("expected list, actual type is '{}' in value '{}'", value.type_of(), value)
     }
